@@ -15,8 +15,8 @@ def touchesKey (k : κ) : Ev κ ν → Bool
   | _ => false
 
 /-- The entry (k ↦ v, expiry e) is stored and every pending sleeper of `k` is its own; or `e` has passed. -/
-def Live (k : κ) (v : ν) (e : Int) (sz : Nat) (c : Cache κ ν) : Prop :=
-  (find? k c.entries = some ⟨v, e, sz⟩ ∧ ∀ s, s ∈ c.pending → s.key = k → s.due = e) ∨ e ≤ c.now
+def Live (k : κ) (v : ν) (e : Int) (sz : Nat) (due : Int) (c : Cache κ ν) : Prop :=
+  (find? k c.entries = some ⟨v, e, sz⟩ ∧ ∀ s, s ∈ c.pending → s.key = k → s.due = due) ∨ due ≤ c.mono
 
 theorem mem_insertSleeper {s x : Sleeper κ} {l : List (Sleeper κ)} (h : x ∈ insertSleeper s l) :
     x = s ∨ x ∈ l := by
@@ -67,22 +67,31 @@ theorem clearAll_pending (c : Cache κ ν) (l : List (Sleeper κ)) : (clearAll c
   | nil => rfl
   | cons s rest ih => rw [clearAll, ih]; rfl
 
-theorem step_now_mono (c : Cache κ ν) (ev : Ev κ ν) : c.now ≤ (step c ev).1.now := by
+theorem step_mono_mono (c : Cache κ ν) (ev : Ev κ ν) : c.mono ≤ (step c ev).1.mono := by
   cases ev with
-  | set k v ttl sz => simp only [step]; rw [set_now]; exact Int.le_refl _
-  | fire i => simp only [step]; rw [fire_now]; exact Int.le_refl _
-  | adv d => simp only [step]; rw [adv_now]; omega
+  | set k v ttl sz =>
+    simp only [step]
+    rcases set_cases c k v ttl sz with ⟨_, h1⟩ | ⟨hroom, _⟩
+    · rw [h1]; exact Int.le_refl _
+    · by_cases httl : ttl > 0
+      · rw [set_eq_pos k v ttl sz hroom httl]; exact Int.le_refl _
+      · rw [set_eq_nonpos k v ttl sz hroom httl]; exact Int.le_refl _
+  | fire i =>
+    simp only [step]
+    rcases fire_cases c i with h1 | h1 | ⟨s, _, _, h1⟩ <;> rw [h1] <;> exact Int.le_refl _
+  | adv d => simp only [step, adv]; omega
   | skip d => simp only [step, skip]; omega
+  | wstep d => exact Int.le_refl _
   | get k => exact Int.le_refl _
   | has k => exact Int.le_refl _
   | del k => exact Int.le_refl _
   | probe => exact Int.le_refl _
 
-theorem live_step {k : κ} {v : ν} {e : Int} {sz : Nat} {c : Cache κ ν} (ev : Ev κ ν)
-    (hl : Live k v e sz c) (hev : touchesKey k ev = false) : Live k v e sz (step c ev).1 := by
-  by_cases hpast : e ≤ c.now
-  · right; have := step_now_mono c ev; omega
-  have ⟨hf, hp⟩ : find? k c.entries = some ⟨v, e, sz⟩ ∧ ∀ s, s ∈ c.pending → s.key = k → s.due = e := by
+theorem live_step {k : κ} {v : ν} {e : Int} {sz : Nat} {due : Int} {c : Cache κ ν} (ev : Ev κ ν)
+    (hl : Live k v e sz due c) (hev : touchesKey k ev = false) : Live k v e sz due (step c ev).1 := by
+  by_cases hpast : due ≤ c.mono
+  · right; have := step_mono_mono c ev; omega
+  have ⟨hf, hp⟩ : find? k c.entries = some ⟨v, e, sz⟩ ∧ ∀ s, s ∈ c.pending → s.key = k → s.due = due := by
     rcases hl with h | h
     · exact h
     · exact absurd h hpast
@@ -120,6 +129,7 @@ theorem live_step {k : κ} {v : ν} {e : Int} {sz : Nat} {c : Cache κ ν} (ev :
   | has k' => exact Or.inl ⟨hf, hp⟩
   | probe => exact Or.inl ⟨hf, hp⟩
   | skip d => exact Or.inl ⟨hf, hp⟩
+  | wstep d => exact Or.inl ⟨hf, hp⟩
   | fire i =>
     simp only [step]
     rcases fire_cases c i with h1 | h1 | ⟨s, hs, hd, h1⟩
@@ -130,7 +140,7 @@ theorem live_step {k : κ} {v : ν} {e : Int} {sz : Nat} {c : Cache κ ν} (ev :
       by_cases hsk : s.key = k
       · right
         have := hp s hmem hsk
-        show e ≤ c.now
+        show due ≤ c.mono
         omega
       · left
         refine ⟨?_, ?_⟩
@@ -140,24 +150,25 @@ theorem live_step {k : κ} {v : ν} {e : Int} {sz : Nat} {c : Cache κ ν} (ev :
           exact hp x ((List.eraseIdx_sublist c.pending i).subset hx) hxk
   | adv d =>
     simp only [step]
-    by_cases hany : ∃ s, s ∈ c.pending.takeWhile (fun s => decide (s.due ≤ c.now + (d : Nat))) ∧ s.key = k
+    by_cases hany : ∃ s, s ∈ c.pending.filter (fun s => decide (s.due ≤ c.mono + (d : Nat))) ∧ s.key = k
     · obtain ⟨s, hs, hsk⟩ := hany
       right
-      have hmem : s ∈ c.pending := (List.takeWhile_sublist _).subset hs
-      have hdue := takeWhile_mem_imp hs
+      have hmem := (List.mem_filter.mp hs).1
+      have hdue := (List.mem_filter.mp hs).2
       have := hp s hmem hsk
-      rw [adv_now]
       simp only [decide_eq_true_eq] at hdue
+      show due ≤ c.mono + (d : Nat)
       omega
     · left
       refine ⟨?_, ?_⟩
       · show find? k (clearAll c _).entries = _
         rw [find?_clearAll_other (fun s hs hsk => hany ⟨s, hs, hsk⟩)]; exact hf
       · intro x hx hxk
-        exact hp x ((List.dropWhile_sublist _).subset hx) hxk
+        exact hp x (List.mem_filter.mp hx).1 hxk
 
-theorem live_final {k : κ} {v : ν} {e : Int} {sz : Nat} (evs : List (Ev κ ν)) (c : Cache κ ν)
-    (hl : Live k v e sz c) (hev : ∀ ev, ev ∈ evs → touchesKey k ev = false) : Live k v e sz (final c evs) := by
+theorem live_final {k : κ} {v : ν} {e : Int} {sz : Nat} {due : Int} (evs : List (Ev κ ν)) (c : Cache κ ν)
+    (hl : Live k v e sz due c) (hev : ∀ ev, ev ∈ evs → touchesKey k ev = false) :
+    Live k v e sz due (final c evs) := by
   induction evs generalizing c with
   | nil => exact hl
   | cons ev evs ih =>
